@@ -5,6 +5,7 @@ import PartituraModel.Model.ScoreMidiImportSpec
 import PartituraModel.Model.MidiObject
 import PartituraModel.Model.ScoreEdit
 import PartituraModel.Model.ScoreMidiDefaults
+import PartituraModel.Model.ScoreMidiTies
 
 open Wire Model Model.Ticks Model.MidiPair Model.MidiModes Model.ScoreMidi Model.MidiObject Model.ScoreEdit
 
@@ -310,6 +311,11 @@ def handle (ts : List String) : String :=
     orErr <| (run (list (do let s ← nat; let d ← nat; let p ← nat; let tp ← bool; let tn ← opt nat
                             pure (⟨s, d, p, tp, tn⟩ : ScoreNote))) rest).map fun ns =>
       fmtList (fun r => fmtTuple [fmtNat r.1, fmtNat r.2.1, fmtNat r.2.2]) (notesTied ns)
+  | "tiedend" :: rest =>
+    -- per chain head (start, duration_tied, end_tied.t, pitch): the end of the LAST member next to the summed duration
+    orErr <| (run (list (do let s ← nat; let d ← nat; let p ← nat; let tp ← bool; let tn ← opt nat
+                            pure (⟨s, d, p, tp, tn⟩ : ScoreNote))) rest).map fun ns =>
+      fmtList (fun r => fmtTuple [fmtNat r.1, fmtNat r.2.1, fmtNat r.2.2.1, fmtNat r.2.2.2]) (Model.ScoreMidiTies.tiedEnds ns)
   | "tick" :: rest =>
     -- ppq, origin, base, time -> exact image and the written tick
     orErr <| (run (do let p ← nat; let o ← rat; let b ← pBase; let t ← nat; pure (p, o, b, t)) rest).map
